@@ -96,7 +96,13 @@ def run(ctx):
 
         def answer(ss, k):
             ms = ss.kbest_matches(k=k)
-            return [(float(m.distance), int(m.idx)) for m in ms]
+            got = [(float(m.distance), int(m.idx)) for m in ms]
+            # the other ways of reading the same answer object: slicing, len(), indexing
+            alt = [(float(m.distance), int(m.idx)) for m in ms[:]]
+            if alt != got or len(ms) != len(got) or (got and (float(ms[0].distance), int(ms[0].idx)) != got[0]) or \
+                    (got and (float(ms[-1].distance), int(ms[-1].idx)) != got[-1]):
+                access_bad.append({"k": k, "iterated": got, "sliced": alt, "len": len(ms)})
+            return got
 
         def expected(k):
             if k is None:
@@ -104,6 +110,7 @@ def run(ctx):
             return qualifying[:k]
         info = {"q": q, "cands": cands, "opts": repr(opts), "max_dist": md, "max_value": mv, "use_lb": use_lb,
                 "use_c": use_c, "ndim": nd}
+        access_bad = []
         # single queries on fresh objects
         ks = [1, n, n + 1, rng.randint(1, n + 1)]
         for k in ks:
@@ -187,6 +194,25 @@ def run(ctx):
                 res.violations.append(dict(info, clause="repeated queries on one object answer like a fresh object",
                                            ops=seq, op=op, got=got, fresh=ref))
                 break
+        if access_bad:
+            res.violations.append(dict(info, clause="iterating, slicing, indexing and len() of the returned matches give the "
+                                                    "same k best matches", first=access_bad[0]))
+        # align_fast on an object created without use_c: same distances as align
+        if it % 5 == 0 and nd == 1:
+            try:
+                from dtaidistance.subsequence.dtw import subsequence_search as _ss
+                o1 = _ss(qa, ca, dists_options=dict(opts), use_lb=use_lb, max_dist=md, max_value=mv)
+                o2 = _ss(qa, ca, dists_options=dict(opts), use_lb=use_lb, max_dist=md, max_value=mv)
+                kk = rng.randint(1, n)
+                a1 = [impl.canon(float(d)) for d, _ in o1.align_fast(k=kk)]
+                a2 = [impl.canon(float(d)) for d, _ in o2.align(k=kk)]
+                res.hit("align_fast")
+                if len(a1) != len(a2) or any(not agree(x, y) for x, y in zip(a1, a2)):
+                    res.violations.append(dict(info, clause="align_fast gives the distances of align", k=kk, fast=a1, plain=a2))
+            except BaseException as e:
+                if isinstance(e, (KeyboardInterrupt, SystemExit)):
+                    raise
+                res.violations.append(dict(info, clause="align_fast raised", got=impl.exc_name(e) + ":" + str(e)[:80]))
         res.sample(dict(info, exhaustive=exhaustive), limit=3)
     return res
 
